@@ -108,7 +108,7 @@ theorem allocSeeds_eq (orc : Vec → Bool) (e : EnvSt) (qs : List Q) (g : SeedGe
         have h1 : g.nextSeed = (none, { g with someSeedsGenerated := true }) := by
           simp [SeedGen.nextSeed, hg, hd]
         simp only [envStep, hd, allocSeeds, h1]
-        rw [ih e { g with someSeedsGenerated := true } (by simpa using hg)]
+        rw [ih { e with allocFailed := true } { g with someSeedsGenerated := true } (by simpa using hg)]
       | some p =>
         obtain ⟨v, sg⟩ := p
         have h1 : g.nextSeed = (some (UInt64.ofNat v), { g with someSeedsGenerated := true, sGen := sg }) := by
